@@ -1105,7 +1105,7 @@ theorem nameEncOK_spec (name : List Char) (h : nameEncOK name = true) :
     · exact h6 hb
 
 theorem decodeName64_field (name : List Char) (h : nameEncOK name = true) :
-    (decodeName64 (nameField name)).map untilNul = some name := by
+    untilNul (decodeName64 (nameField name)) = name := by
   obtain ⟨hpos, hle, hnul, hfe, hff, hbom⟩ := nameEncOK_spec name h
   have hlt := utf16Units_lt name
   obtain ⟨m, hm⟩ : ∃ m, m = (utf16Units name).length := ⟨_, rfl⟩
@@ -1159,7 +1159,7 @@ theorem decodeName64_field (name : List Char) (h : nameEncOK name = true) :
             omega
           · have : (0xBF : UInt8).toNat = 0xBF := rfl
             omega
-      simp only [hno, if_false, Option.map_some, Option.some.injEq]
+      simp only [hno, if_false]
       rw [hdec]
       exact untilNul_name name _ hnul
 
@@ -1220,29 +1220,22 @@ theorem fromSlice_dirEntry (name : List Char) (typ : UInt8) (start size ss : Nat
   have hname := decodeName64_field name hn
   unfold Dir.fromSlice
   simp only [hlen, htake]
-  cases hd : decodeName64 (nameField name) with
-  | none => rw [hd] at hname; simp at hname
-  | some cs =>
-    rw [hd] at hname
-    simp only [Option.map_some, Option.some.injEq] at hname
-    have n1 : ¬ (128 < 120) := by omega
-    have n2 : ¬ (128 < 124) := by omega
-    simp only [Nat.lt_irrefl, if_false, n1, n2, hname, h116]
-    rcases hsz with ⟨h1, h2⟩ | ⟨h1, h2⟩
-    · simp only [h1, if_true, h120]
-      rw [Nat.mod_eq_of_lt h2]
-    · simp only [h1, if_false]
-      have h124 : u32At (dirEntry name typ start size) 124 = size / 4294967296 := by
-        rw [dirEntry_eq, ← List.append_assoc]
-        have := u32At_append_right (entryHead name typ ++ le32 start) (le64 size) 4
-        simp only [List.length_append, hH, le32_length] at this
-        rw [this]; exact u32At_le64_hi size h2
-      simp only [u64At, h120, h124]
-      congr 2
-      have := Nat.mod_add_div size 4294967296
-      omega
-
-
+  have n1 : ¬ (128 < 120) := by omega
+  have n2 : ¬ (128 < 124) := by omega
+  simp only [Nat.lt_irrefl, if_false, n1, n2, hname, h116]
+  rcases hsz with ⟨h1, h2⟩ | ⟨h1, h2⟩
+  · simp only [h1, if_true, h120]
+    rw [Nat.mod_eq_of_lt h2]
+  · simp only [h1, if_false]
+    have h124 : u32At (dirEntry name typ start size) 124 = size / 4294967296 := by
+      rw [dirEntry_eq, ← List.append_assoc]
+      have := u32At_append_right (entryHead name typ ++ le32 start) (le64 size) 4
+      simp only [List.length_append, hH, le32_length] at this
+      rw [this]; exact u32At_le64_hi size h2
+    simp only [u64At, h120, h124]
+    congr 2
+    have := Nat.mod_add_div size 4294967296
+    omega
 
 /-! ## parsing the directory -/
 
@@ -1251,7 +1244,7 @@ def unusedDir : Dir := ⟨[], 0, 0⟩
 
 theorem fromSlice_unused (ss : Nat) : Dir.fromSlice unusedEntry ss = .ok unusedDir := by
   have hlen : unusedEntry.length = 128 := rfl
-  have hname : decodeName64 (unusedEntry.take 64) = some (List.replicate 32 (Char.ofNat 0)) := by decide
+  have hname : decodeName64 (unusedEntry.take 64) = List.replicate 32 (Char.ofNat 0) := by decide
   have hnul : untilNul (List.replicate 32 (Char.ofNat 0)) = [] := by decide
   have h116 : u32At unusedEntry 116 = 0 := by decide
   have h120 : u32At unusedEntry 120 = 0 := by decide
@@ -1977,6 +1970,180 @@ theorem new_layout_good (streams : List Stream) (L : Layout) (hv : ValidP stream
     ∃ c rd, Cfb.new (layoutCfb streams L) (layoutCfb streams L).length = .ok (c, rd) ∧ Good streams L c rd := by
   obtain ⟨s, rd, he, hi, hz⟩ := new_layout streams L hv
   exact ⟨_, rd, he, ⟨rfl, rfl, rfl, rfl, hi, hz⟩⟩
+
+
+
+/-! ## no panic, no hang (C06 flavour) -/
+
+
+def toU32Msg : String := "to_u32: assert_eq!(s.len() % 4, 0)"
+
+theorem chainLoop_clean (fats : List Nat) (rem id : Nat) (s : Sectors) (rd : Bytes) :
+    (∀ m, Sectors.chainLoop fats rem id s rd ≠ .panic m) ∧ Sectors.chainLoop fats rem id s rd ≠ .outOfFuel := by
+  induction rem generalizing id s rd with
+  | zero => unfold Sectors.chainLoop; split <;> simp
+  | succ rem ih =>
+    unfold Sectors.chainLoop
+    split; · simp
+    split; · simp
+    rename_i next _
+    dsimp only
+    have := ih next (s.get id rd).2.1 (s.get id rd).2.2
+    split <;> simp_all
+
+theorem getChain_clean (s : Sectors) (start : Nat) (fats : List Nat) (rd : Bytes) (len : Nat) :
+    (∀ m, s.getChain start fats rd len ≠ .panic m) ∧ s.getChain start fats rd len ≠ .outOfFuel := by
+  unfold Sectors.getChain
+  have := chainLoop_clean fats fats.length start s rd
+  split <;> simp_all
+
+theorem difatLoop_clean (rem id : Nat) (difat : List Nat) (s : Sectors) (rd : Bytes) :
+    (∀ m, difatLoop rem id difat s rd ≠ .panic m) ∧ difatLoop rem id difat s rd ≠ .outOfFuel := by
+  induction rem generalizing id difat s rd with
+  | zero => unfold difatLoop; split <;> simp
+  | succ rem ih =>
+    unfold difatLoop
+    split
+    · dsimp only
+      split
+      · simp
+      · exact ih _ _ _ _
+    · simp
+
+theorem loadFats_clean (ids : List Nat) (s : Sectors) (rd : Bytes) :
+    (∀ m, loadFats ids s rd = .panic m → m = toU32Msg) ∧ loadFats ids s rd ≠ .outOfFuel := by
+  induction ids generalizing s rd with
+  | nil => simp [loadFats]
+  | cons id ids ih =>
+    unfold loadFats
+    split
+    · dsimp only
+      split
+      · simp [toU32Msg]
+      · have := ih (s.get id rd).2.1 (s.get id rd).2.2
+        split <;> simp_all
+    · exact ih s rd
+
+theorem chunksAux_len (n : Nat) : ∀ (f : Nat) (l : Bytes), ∀ x ∈ chunksAux n f l, x.length = n := by
+  intro f
+  induction f with
+  | zero => intro l x hx; simp [chunksAux] at hx
+  | succ f ih =>
+    intro l x hx
+    unfold chunksAux at hx
+    split at hx
+    · simp at hx
+    · simp only [List.mem_cons] at hx
+      rcases hx with rfl | hx
+      · rw [List.length_take]; omega
+      · exact ih _ x hx
+
+theorem fromSlice_ok128 (buf : Bytes) (ss : Nat) (h : buf.length = 128) : ∃ d, Dir.fromSlice buf ss = .ok d := by
+  unfold Dir.fromSlice
+  have n1 : ¬ (128 < 120) := by omega
+  have n2 : ¬ (128 < 124) := by omega
+  simp only [h, n1, n2, Nat.lt_irrefl, if_false]
+  split <;> exact ⟨_, rfl⟩
+
+theorem parseDirs_ok (ss : Nat) : ∀ (cs : List Bytes), (∀ x ∈ cs, x.length = 128) → ∃ ds, parseDirs ss cs = .ok ds := by
+  intro cs
+  induction cs with
+  | nil => intro _; exact ⟨[], rfl⟩
+  | cons c cs ih =>
+    intro h
+    obtain ⟨d, hd⟩ := fromSlice_ok128 c ss (h c (by simp))
+    obtain ⟨ds, hds⟩ := ih (fun x hx => h x (by simp [hx]))
+    unfold parseDirs
+    rw [hd, hds]
+    exact ⟨_, rfl⟩
+
+
+theorem fromReader_clean (rd : Bytes) :
+    (∀ m, Header.fromReader rd ≠ .panic m) ∧ Header.fromReader rd ≠ .outOfFuel := by
+  unfold Header.fromReader
+  split; · simp
+  dsimp only
+  split; · simp
+  split; · simp
+  split; · simp
+  split <;> simp
+
+/-- the only way `Cfb::new` can still unwind is `to_u32`'s assert on a truncated table sector; it never
+    runs out of fuel (every loop is bounded by the file) -/
+theorem new_clean (file : Bytes) (len : Nat) :
+    (∀ m, Cfb.new file len = .panic m → m = toU32Msg) ∧ Cfb.new file len ≠ .outOfFuel := by
+  unfold Cfb.new
+  have c1 := fromReader_clean file
+  cases h1 : Header.fromReader file with
+  | err e => simp
+  | panic m => exact absurd h1 (c1.1 m)
+  | outOfFuel => exact absurd h1 c1.2
+  | ok v1 =>
+    obtain ⟨h, difat0, rd⟩ := v1
+    simp only [Res.bind_ok]
+    have c2 := difatLoop_clean (len / h.sectorSize + 1) h.difatStart difat0 ⟨[], h.sectorSize⟩ rd
+    cases h2 : difatLoop (len / h.sectorSize + 1) h.difatStart difat0 ⟨[], h.sectorSize⟩ rd with
+    | err e => simp
+    | panic m => exact absurd h2 (c2.1 m)
+    | outOfFuel => exact absurd h2 c2.2
+    | ok v2 =>
+      obtain ⟨difat, s1, rd1⟩ := v2
+      simp only [Res.bind_ok]
+      have c3 := loadFats_clean difat s1 rd1
+      cases h3 : loadFats difat s1 rd1 with
+      | err e => simp
+      | panic m => have := c3.1 m h3; simp [this]
+      | outOfFuel => exact absurd h3 c3.2
+      | ok v3 =>
+        obtain ⟨fats, s2, rd2⟩ := v3
+        simp only [Res.bind_ok]
+        have c4 := getChain_clean s2 h.dirStart fats rd2 (h.dirLen * h.sectorSize)
+        cases h4 : s2.getChain h.dirStart fats rd2 (h.dirLen * h.sectorSize) with
+        | err e => simp
+        | panic m => exact absurd h4 (c4.1 m)
+        | outOfFuel => exact absurd h4 c4.2
+        | ok v4 =>
+          obtain ⟨dirBytes, s3, rd3⟩ := v4
+          simp only [Res.bind_ok]
+          obtain ⟨dirs, hdirs⟩ := parseDirs_ok h.sectorSize (chunksExact 128 dirBytes) (chunksAux_len 128 _ _)
+          rw [hdirs]
+          simp only [Res.bind_ok]
+          cases dirs with
+          | nil => simp
+          | cons root tl =>
+            simp only
+            split
+            · have c5 := getChain_clean s3 root.start fats rd3 root.len
+              cases h5 : s3.getChain root.start fats rd3 root.len with
+              | err e => simp
+              | panic m => exact absurd h5 (c5.1 m)
+              | outOfFuel => exact absurd h5 c5.2
+              | ok v5 =>
+                obtain ⟨ms, s4, rd4⟩ := v5
+                simp only [Res.bind_ok]
+                have c6 := getChain_clean s4 h.miniFatStart fats rd4 (h.miniFatLen * h.sectorSize)
+                cases h6 : s4.getChain h.miniFatStart fats rd4 (h.miniFatLen * h.sectorSize) with
+                | err e => simp
+                | panic m => exact absurd h6 (c6.1 m)
+                | outOfFuel => exact absurd h6 c6.2
+                | ok v6 =>
+                  obtain ⟨mf, s5, rd5⟩ := v6
+                  simp only [Res.bind_ok]
+                  split <;> simp [toU32Msg]
+            · simp
+
+/-- `get_stream` never unwinds and never runs out of fuel, whatever the state and the allocation tables -/
+theorem getStream_clean (c : CfbSt) (name : List Char) (rd : Bytes) :
+    (∀ m, getStream c name rd ≠ .panic m) ∧ getStream c name rd ≠ .outOfFuel := by
+  unfold getStream
+  split
+  · simp
+  · rename_i d _
+    split
+    · have := getChain_clean c.mini d.start c.miniFats rd d.len
+      split <;> simp_all
+    · have := getChain_clean c.sectors d.start c.fats rd d.len
+      split <;> simp_all
 
 
 end Cfb
